@@ -161,7 +161,7 @@ def eq_values(I, st, a, b):
         if isinstance(a, Ref) and isinstance(b, Ref) and a.id == b.id:
             return True
         # keys / items views compare as sets, values views by identity - never as the list the model keeps
-        raise Unsupported("== on a dictionary view")
+        raise Unsupported("== on a dictionary view / an iterator object")
     if isinstance(a, Ref) and isinstance(b, Ref):
         ea, eb = st.get(a), st.get(b)
         if ea.kind != eb.kind:
@@ -227,8 +227,13 @@ def eq_values(I, st, a, b):
 
 
 def is_view(st, v):
-    """v is a d.keys() / d.values() / d.items() view (values.DictViewE)"""
-    return isinstance(v, Ref) and st.store[v.id].__class__ is DictViewE
+    """v is a d.keys() / d.values() / d.items() view (values.DictViewE) or an iterator object (values.IterE): kept as a
+    list by the model, but NOT a list in Python"""
+    return isinstance(v, Ref) and st.store[v.id].__class__ in (DictViewE, IterE)
+
+
+def is_iterator(st, v):
+    return isinstance(v, Ref) and st.store[v.id].__class__ is IterE
 
 
 def seq_eq(I, st, xs, ys):
@@ -474,6 +479,8 @@ def contains(I, st, container, item):
             raise Unsupported("in range with step")
         yield st, conj([ops.num_compare("LtE", lo, item), ops.num_compare("Lt", item, hi)])
         return
+    if is_iterator(st, container):
+        raise Unsupported("`in` on an iterator object (consumes it up to the first match)")
     if isinstance(container, Ref):
         e = st.get(container)
         if e.kind in ("list", "deque"):
@@ -587,7 +594,7 @@ def slice_concrete(I, n, s):
 
 def getitem(I, st, obj, idx):
     if is_view(st, obj):
-        raise Unsupported("subscript of a dictionary view (TypeError in Python)")
+        raise Unsupported("subscript of a dictionary view / an iterator object (TypeError in Python)")
     from . import npmodel
     from .symex import FrozenList, FrozenDict, FrozenNd
 
@@ -874,7 +881,7 @@ def dict_symbolic_get(I, st, e, idx):
 
 def setitem(I, st, obj, idx, v):
     if is_view(st, obj):
-        raise Unsupported("subscript of a dictionary view (TypeError in Python)")
+        raise Unsupported("subscript of a dictionary view / an iterator object (TypeError in Python)")
     from . import npmodel
 
     if isinstance(obj, HeapSeq):
@@ -971,7 +978,7 @@ def setitem(I, st, obj, idx, v):
 
 def delitem(I, st, obj, idx):
     if is_view(st, obj):
-        raise Unsupported("subscript of a dictionary view (TypeError in Python)")
+        raise Unsupported("subscript of a dictionary view / an iterator object (TypeError in Python)")
     from .attrs import ObjDict as _ObjDict
 
     if isinstance(obj, _ObjDict):
@@ -1064,11 +1071,25 @@ def iterate(I, st, v):
             # it was computed from must not have changed since (CPython would compute it only now)
             lazy_check(st, st.ghost.get(("lazy_src", v.id)))
             lazy_note(st, v, e.items)
+            if e.__class__ is IterE:
+                if e.consumed:
+                    raise Unsupported("an iterator object is consumed a second time (it is exhausted in Python)")
+                if e.free is not None:
+                    env = I.env_of(st, e.free[0])
+                    if env is None or any(n not in env or env[n] is not val for n, val in e.free[1].items()):
+                        raise Unsupported("a variable read by a stored generator expression is rebound before the generator is consumed")
+                e.consumed = True
             return list(e.items)
         if e.kind in ("set", "dict"):
             from .loops import lazy_note
 
             lazy_note(st, v, list(e.items))  # a lazy iterator over a set / the keys of a dictionary depends on them
+            if e.kind == "set" and len(e.items) > 1:
+                # KNOWN DEVIATION, declared in the trusted base of every lemma that iterates a set: CPython delivers the
+                # elements in hash-table order (for strings different in every process), the model in insertion order.
+                # Sound only for conclusions that do not depend on the order.
+                I.trust("set-order", "A3: a set of two or more elements is iterated in INSERTION order (CPython: hash order, "
+                                     "unspecified); conclusions must not depend on the order of iteration")
             return list(e.items)
         if e.kind == "nd":
             from . import npmodel
